@@ -41,11 +41,18 @@ class LinePass(AbstractPass):
         return state + 1
 
     def advance_on_success(self, test_case, state):
-        return state
+        return state + 1 if self.arg == 'indent' else state
 
     def transform(self, test_case, state, process_event_notifier):
         with open(test_case) as f:
             lines = f.readlines()
+        if self.arg == 'indent':
+            # an undoing pass: puts the indentation back that a formatter strips (one candidate)
+            if state >= 1 or not lines or all(l.startswith('    ') for l in lines):
+                return (PassResult.STOP, state)
+            with open(test_case, 'w') as f:
+                f.writelines('    ' + l.lstrip(' ') for l in lines)
+            return (PassResult.OK, state)
         if state >= len(lines):
             return (PassResult.STOP, state)
         if self.arg == 'scratch':
@@ -54,6 +61,7 @@ class LinePass(AbstractPass):
         if self.arg == 'grow' and state == 0:
             with open(test_case, 'w') as f:
                 f.writelines(lines * 4)
+            os.chmod(test_case, 0o600)         # as if written through a private temporary file (IncludeIncludesPass does)
             return (PassResult.OK, state)
         with open(test_case, 'w') as f:
             f.writelines(lines[:state] + lines[state + 1:])
@@ -184,6 +192,10 @@ def main():
     if scen.get('write_script', True):
         script.write_text(SCRIPT.format(log=log, cur=cur, others=' '.join(t for t in test_cases[1:]) or 'nonexistent',
                                         predicate=scen.get('predicate', 'exit 0')))
+        if 'script_shebang' in scen:
+            # a script only a shell can start (no `#!` line), or one whose interpreter does not exist
+            body = script.read_text().split('\n', 1)[1]
+            script.write_text((scen['script_shebang'] + '\n' if scen['script_shebang'] else '') + body)
         os.chmod(script, int(scen.get('script_mode', '755'), 8))
     before = snapshot(wd)
     if any(f.startswith('../') for f in scen['tree']):
